@@ -243,7 +243,7 @@ class FlwdirRaster(Flwdir):
         self._core = FTYPES[ftype]
 
         # raster dimensions and spatial attributes
-        if np.multiply(*np.array(shape, np.uint64)) != self.size:
+        if len(shape) != 2 or np.multiply(*np.array(shape, np.uint64)) != self.size:
             msg = f"Invalid FlwdirRaster: shape {shape} does not match size {self.size}"
             raise ValueError(msg)
         self.shape = shape
